@@ -11,14 +11,20 @@
      namedec xBYTES           -> (ok MAC WIN) | err | panic
      otfpair xSCRIPT xLANG    -> (ok xEXT xSCRIPT xLANG) | err   (x extension string predicted under
                                  the x/text assumption, and the pair bcp47ToOtf recovers from it)
-   MAC, WIN = ((xTAG ((id (r ...)) ...)) ...) *)
+   MAC, WIN = ((xTAG ((id (r ...)) ...)) ...); rune lists may contain (rep n r), tables (idrange start count (r ...)) *)
 
-let runes x = List.map sx_n (lst x)
+(* a rune list may contain run-length items (rep n r) *)
+let runes x = List.concat_map (fun e -> match e with
+    | L [A "rep"; n; r] -> let v = sx_n r in List.init (sx_int n) (fun _ -> v)
+    | _ -> [sx_n e]) (lst x)
 let sx_runes l = L (List.map an l)
 
+(* a table may contain (idrange start count RUNES): count consecutive ids with the same string *)
 let table_of_sx x =
-  List.map (fun e -> match e with
-    | L [id; v] -> (sx_n id, runes v)
+  List.concat_map (fun e -> match e with
+    | L [A "idrange"; st; c; v] ->
+        let s = sx_int st and rv = runes v in List.init (sx_int c) (fun i -> (n_of_int (s + i), rv))
+    | L [id; v] -> [(sx_n id, runes v)]
     | _ -> failwith "bad table entry") (lst x)
 let tables_of_sx x =
   List.map (fun e -> match e with
